@@ -2,7 +2,7 @@
 form).  Parsed by the checker, never executed."""
 import numpy as np
 from scipy import linalg
-from sklearn.utils.extmath import svd_flip
+from sklearn.utils.extmath import randomized_svd, svd_flip
 from skmatter.utils import pcovr_covariance, pcovr_kernel
 
 
@@ -26,6 +26,16 @@ def inverse_sqrt_covariance(X, rcond):
     return U @ np.diagflat(1.0 / v) @ U.T
 
 
+def inverse_sqrt_covariance_lowrank(X, rcond, rank, iterated_power, random_state):
+    # the same on the span of the `rank` leading right singular vectors of X (randomized SVD):
+    # singular values s with s^2 = eigenvalue of X^T X, kept where the eigenvalue exceeds rcond
+    _, s, Vt = randomized_svd(X, n_components=rank, n_iter=iterated_power, flip_sign=True, random_state=random_state)
+    keep = (s**2) > rcond
+    V = Vt.T[:, keep]
+    s = s[keep]
+    return V @ np.diagflat(1.0 / s) @ V.T
+
+
 def modified_covariance(mixing, X, Yhat, rcond):
     # C~ = a X^T X + (1 - a) C^(-1/2) X^T Yhat Yhat^T X C^(-1/2)
     C_isqrt = inverse_sqrt_covariance(X, rcond)
@@ -37,6 +47,18 @@ def modified_covariance(mixing, X, Yhat, rcond):
 def leading_components(mat, k):
     # economy SVD with deterministic signs, leading k of U, S, Vt together
     U, S, Vt = linalg.svd(mat, full_matrices=False)
+    U, Vt = svd_flip(U, Vt)
+    return U[:, :k], S[:k], Vt[:k]
+
+
+def kernel_leading_components(mat, k, tol):
+    # KernelPCovR: singular triplets below the tolerance are zeroed (directions outside the
+    # numerical range of the modified kernel carry no latent coordinate), then signs are fixed
+    U, S, Vt = linalg.svd(mat, full_matrices=False)
+    small = S < tol
+    U[:, small] = 0.0
+    Vt[small] = 0.0
+    S[small] = 0.0
     U, Vt = svd_flip(U, Vt)
     return U[:, :k], S[:k], Vt[:k]
 
@@ -136,3 +158,22 @@ def leading_components_randomized(mat, k, n_iter, random_state):
     from sklearn.utils.extmath import randomized_svd
 
     return randomized_svd(mat, n_components=k, n_iter=n_iter, flip_sign=True, random_state=random_state)
+
+
+def _zero_small(U, S, Vt, tol):
+    # KernelPCovR: triplets below the tolerance carry no latent coordinate
+    small = S < tol
+    U[:, small] = 0.0
+    Vt[small] = 0.0
+    S[small] = 0.0
+    return U, S, Vt
+
+
+def kernel_components_arpack(mat, k, tol, v0):
+    U, S, Vt = leading_components_arpack(mat, k, tol, v0)
+    return _zero_small(U, S, Vt, tol)
+
+
+def kernel_components_randomized(mat, k, n_iter, random_state, tol):
+    U, S, Vt = leading_components_randomized(mat, k, n_iter, random_state)
+    return _zero_small(U, S, Vt, tol)
